@@ -7,14 +7,14 @@ D=$1; WT=$2; DEMO=$3; shift 3
 cd $WT || exit 2
 git checkout -q -- . ; git clean -fdq -e target
 git apply $D/patch.diff || { echo "CONFIRM patch-does-not-apply"; exit 1; }
-suite=$(/tmp/r3/runtests.sh $WT | grep '^RESULT' )
+suite=$(/verif/tools/runtests.sh $WT | grep '^RESULT' )
 place_demo() {
   if [ -f $D/extra/demo.patch ]; then git apply $D/extra/demo.patch || echo "demo.patch failed"; fi
   if [ -n "${CONFIRM_PRE:-}" ]; then ( eval "$CONFIRM_PRE" ) || echo "pre-step failed"; fi
   for m in "$@"; do src=${m%%=*}; dst=${m#*=}; mkdir -p $(dirname $WT/$dst); cp $D/extra/$src $WT/$dst; done
 }
 place_demo "$@"
-. /tmp/r3/env.sh; export CARGO_TARGET_DIR=$WT/target
+export CARGO_NET_OFFLINE=true CARGO_TARGET_DIR=$WT/target
 ( eval "$DEMO" ) > $WT/.demo_with.log 2>&1; with=$?
 git apply -R $D/patch.diff || echo "revert failed"
 ( eval "$DEMO" ) > $WT/.demo_without.log 2>&1; without=$?
